@@ -18,7 +18,7 @@ EXPLANATION = (
     "(sqrt of a sum, division of every entry) dominates the convergence test, so the vector that is returned is the normalised one.  "
     "R-C18-2: the function (and its closures) never reads the raw by-index adjacency lists, whose entries are per-pair cache values "
     "(an undirected self-loop is listed twice), so the matrix it iterates is the one of the stored edges.  "
-    "NOT decided: unit norm, non-negativity, fixed-point quality (numerical)."
+    "R-C18-3 holds in both directions (constant => unweighted or NaN; stored weight => weighted and a number).  NOT decided: unit norm, non-negativity, fixed-point quality (numerical)."
 )
 TRUSTED = ["rustc MIR construction", "over-approximated dependence"]
 
@@ -235,5 +235,17 @@ def run(ctx):
                             nan = any(k.startswith("is_nan(") and "weight" in k and v is True for k, v in fd.items() if isinstance(k, str))
                             if not (unw or nan):
                                 bad.append("the weight is replaced by a constant on a path where the call is weighted and the weight is not known to be NaN (known: %s)" % sorted((str(k), v) for k, v in fd.items()))
+                    if k_ == "weight":
+                        # ... and conversely: the stored weight is the factor only when the call IS weighted and the
+                        # weight is a number ("edge weights are ignored when weighted == false")
+                        states = ex.at_block.get(dbb, set())
+                        if ex.truncated or not states:
+                            bad.append("the condition under which the stored weight is used could not be evaluated")
+                        for (facts, marks) in states:
+                            fd = dict(facts)
+                            unw = any(k.endswith("weighted") and v is False for k, v in fd.items() if isinstance(k, str))
+                            nan = any(k.startswith("is_nan(") and "weight" in k and v is True for k, v in fd.items() if isinstance(k, str))
+                            if unw or nan:
+                                bad.append("the stored weight is the factor on a path where %s (known: %s): an unweighted call then iterates with the weighted matrix" % ("the call is unweighted" if unw else "the weight is NaN", sorted((str(k), v) for k, v in fd.items())))
                 ctx.require(not bad, "R-C18-3", "weight-factor|%s" % cb.short.split("::{closure")[0], "the edge factor is edge.weight, or 1 under `!weighted` / `weight.is_nan()` only", "%s: a stored weight that is not NaN (for example 0.0) is not the matrix entry the iteration uses" % "; ".join(sorted(set(bad))[:3]), loc_str(st.span))
     ctx.floor("R-C18-3", "weight_factors", n_w, 1)
